@@ -191,10 +191,10 @@ def check(ctx):
                 return True
             return False
         nontriv = extra["chains_stopped_early"]
-        rule = ("all chains of 0..%d synthetic plugins (pass, modify, replace, stop, stop-with-nil, nil-without-stop) for both protocols, and the chains of 0..%d again at log level debug, registered through " % ((5, 3) if ctx.quick else (6, 4))
+        rule = ("all chains of 0..%d synthetic plugins (pass, modify, replace, stop, stop-with-nil, nil-without-stop) for both protocols, and the chains of 0..%d again at log level debug, registered through "
                 "plugins.RegisterPlugin, loaded through plugins.LoadPlugins and driven through HandleMsg4/6; all plugin-kind lists (v4-only, v6-only, dual, "
                 "unknown, failing, nil handler) of the tier's length through LoadPlugins; server.Start with a slow (and a slow, failing) plugin setup under a "
-                "stream of SOLICITs over a real socket; distinct_nontrivial = chains that stopped before their last handler")
+                "stream of SOLICITs over a real socket; distinct_nontrivial = chains that stopped before their last handler") % ((5, 3) if ctx.quick else (6, 4))
     else:
         raise Infra("unknown property " + prop)
     extra["binding_selftest"] = selftest(ctx, paths[0], mut) if not ctx.violations else {"skipped": "violations reported"}
